@@ -1046,15 +1046,17 @@ def _fdop(name):
         if name == 'write' and K.faults and isinstance(ev[3], str):
             # a file-size limit (ulimit -f, a quota boundary) as a persistent condition: each file below D takes at most
             # `limit` bytes - the write that crosses the limit is SHORT, the next one fails with EFBIG
-            for f_ in K.faults:
+            for i_, f_ in enumerate(K.faults):
                 if f_.get('kind') == 'cond' and f_.get('what') == 'file_size_limit' and ev[3].startswith(f_['dir'] + '/'):
                     done_ = K.fsize.get(ev[3], 0)
                     room = f_['limit'] - done_
                     if room <= 0:
+                        K.fired.append((i_, ev[0]))
                         e_ = OSError(E.EFBIG, os.strerror(E.EFBIG))
                         K.fail(ev, e_)
                         raise e_
                     if len(a[0]) > room:
+                        K.fired.append((i_, ev[0]))
                         a = (bytes(a[0])[:room],) + tuple(a[1:])
                         ev[5] = dict(ev[5] or {}, short=room)
                     K.fsize[ev[3]] = done_ + len(a[0])
